@@ -170,6 +170,6 @@ Qed.
 
 Lemma prod_span_ends_after_last_symbol : prod_span_ends_after_last_symbol_stmt.
 Proof.
-  intros k fa l ag Hag Hl. exists (ast_of fa true l ag), (warnings_of fa true l ag).
+  intros k fa fu l ag Hag Hl. exists (ast_of fa true l ag), (warnings_of fa true fu l ag).
   split; [apply yacc_roundtrip; assumption | apply ast_of_prod_spans].
 Qed.
